@@ -392,3 +392,78 @@ def evb(b, env, memo=None, tol=0.0):
     if k == '<=': return x <= y + s
     if k == '>': return x > y - s
     return x >= y - s
+
+
+# ------------------------------------------------------------------------------------------------ evaluation with running error bound
+_EPS = 2.3e-16
+
+
+def eve(t, env, memo=None):
+    """(value, absolute error bound) - first-order running error analysis; scale-free decisions in evb3"""
+    if memo is None: memo = {}
+    r = memo.get(t.id)
+    if r is not None: return r
+    o = t.op
+    try:
+        if o == 'c':
+            v = float(t.a[0]); r = (v, abs(v) * _EPS)
+        elif o == 'v':
+            if t.a[0] not in env or env[t.a[0]] is None: raise EvalError("unbound " + t.a[0])
+            v = float(env[t.a[0]]); r = (v, abs(v) * _EPS)
+        elif o == 'app':
+            k = ('#', t.id)
+            if k in env and env[k] is not None: v = float(env[k])
+            elif t.a[0] in env and callable(env[t.a[0]]): v = float(env[t.a[0]](*[eve(x, env, memo)[0] for x in t.a[1:]]))
+            else: raise EvalError("uninterpreted " + t.a[0])
+            r = (v, abs(v) * 1e-12)
+        elif o == 'exp':
+            a, ea = eve(t.a[0], env, memo); v = math.exp(a); r = (v, abs(v) * (ea + 2 * _EPS))
+        elif o == 'log':
+            a, ea = eve(t.a[0], env, memo); v = math.log(a); r = (v, ea / abs(a) + abs(v) * 2 * _EPS + _EPS)
+        elif o == 'ite':
+            c = evb3(t.a[0], env, memo)
+            if c is None:
+                x, ex = eve(t.a[1], env, memo); y, ey = eve(t.a[2], env, memo)
+                r = (x, max(ex, ey) + abs(x - y))
+            else:
+                r = eve(t.a[1] if c else t.a[2], env, memo)
+        else:
+            (a, ea), (b, eb) = eve(t.a[0], env, memo), eve(t.a[1], env, memo)
+            if o == '+': v = a + b; e = ea + eb
+            elif o == '-': v = a - b; e = ea + eb
+            elif o == '*': v = a * b; e = abs(a) * eb + abs(b) * ea
+            else:
+                v = a / b; e = (ea + abs(v) * eb) / abs(b)
+            r = (v, e + abs(v) * _EPS)
+    except (ZeroDivisionError, ValueError, OverflowError) as x:
+        raise EvalError(str(x))
+    memo[t.id] = r
+    return r
+
+
+def evb3(b, env, memo=None, K=64.0):
+    """three-valued truth: True / False when decided beyond the error bound, None when within it"""
+    if memo is None: memo = {}
+    o = b.op
+    if o == 'lit': return b.a[0]
+    if o == 'bvar': return bool(env[b.a[0]])
+    if o == 'not':
+        r = evb3(b.a[0], env, memo, K)
+        return None if r is None else (not r)
+    if o == 'and':
+        rs = [evb3(x, env, memo, K) for x in b.a]
+        if any(r is False for r in rs): return False
+        return None if any(r is None for r in rs) else True
+    if o == 'or':
+        rs = [evb3(x, env, memo, K) for x in b.a]
+        if any(r is True for r in rs): return True
+        return None if any(r is None for r in rs) else False
+    k = b.a[0]; (x, ex), (y, ey) = eve(b.a[1], env, memo), eve(b.a[2], env, memo)
+    s = K * (ex + ey) + 1e-300
+    d = x - y
+    if abs(d) <= s:
+        return None
+    if k == '==': return False
+    if k == '!=': return True
+    if k in ('<', '<='): return d < 0
+    return d > 0
